@@ -1,5 +1,5 @@
 (* C19 — lemmas about the model of Synth/DataGen.v.  Statements used by Props/C19.v. *)
-From Coq Require Import List Arith ZArith Bool Lia Permutation.
+From Coq Require Import List Arith ZArith Bool Lia Permutation Sorted.
 From Outrank Require Import Synth.DataGen.
 Import ListNotations.
 Open Scope Z_scope.
@@ -210,6 +210,7 @@ Qed.
 Lemma layout_length a specs : layout a = Ok specs -> length specs = n_features a.
 Proof.
   unfold layout. intros H.
+  destruct (nodup_nat (map fst (flat (structure a)))); [|discriminate].
   match type of H with (if ?c then _ else _) = _ => destruct c eqn:E; [|discriminate] end.
   inversion H; subst. now apply Nat.eqb_eq.
 Qed.
@@ -317,27 +318,6 @@ Qed.
 
 (* ---------------------------------------------------------------- positions *)
 
-Definition place_all (d : attrs) (fl : list (nat * attrs)) (acc : list attrs) : list attrs :=
-  fold_left (fun acc (p : nat * attrs) => place d acc (fst p) (snd p)) fl acc.
-
-Lemma place_all_app d fl1 fl2 acc :
-  place_all d (fl1 ++ fl2) acc = place_all d fl2 (place_all d fl1 acc).
-Proof. unfold place_all. apply fold_left_app. Qed.
-
-Lemma place_entry_flat d e acc : place_entry d acc e = place_all d (flat_entry e) acc.
-Proof.
-  destruct e as [i at_|ixs at_]; cbn. reflexivity.
-  revert acc. induction ixs as [|i r IH]; cbn; intros acc. reflexivity. apply IH.
-Qed.
-
-Lemma layout_fold_flat d st : forall acc,
-  fold_left (place_entry d) st acc = place_all d (flat_map flat_entry st) acc.
-Proof.
-  induction st as [|e r IH]; intros acc. reflexivity.
-  change (flat_map flat_entry (e :: r)) with (flat_entry e ++ flat_map flat_entry r).
-  rewrite place_all_app. cbn [fold_left]. rewrite IH, place_entry_flat. reflexivity.
-Qed.
-
 Lemma map_const_repeat {A B} (f : A -> B) d l : (forall x, In x l -> f x = d) -> map f l = repeat d (length l).
 Proof.
   induction l as [|x r IH]; cbn; intros H. reflexivity.
@@ -352,24 +332,97 @@ Proof.
   destruct (Nat.eqb_spec i j). lia. apply (IH (S i)); auto. lia.
 Qed.
 
-Lemma increasing_lower : forall (r : list (nat * attrs)) lo,
-  increasing_from lo (map fst r) = true -> forall p, In p r -> (lo <= fst p)%nat.
+(* with every index described once, [declared_in] is the unique attribute listed for j ... *)
+Lemma declared_in_In d : forall (l : list (nat * attrs)) j at_,
+  NoDup (map fst l) -> In (j, at_) l -> declared_in d l j = at_.
 Proof.
-  induction r as [|[k b] r IH]; cbn; intros lo H p Hp. contradiction.
-  apply andb_true_iff in H as [H1 H2]. apply Nat.leb_le in H1.
-  destruct Hp as [<-|Hp]. cbn. lia. specialize (IH _ H2 _ Hp). lia.
-Qed.
-
-Lemma declared_in_at d : forall r lo i at_,
-  increasing_from lo (map fst r) = true -> In (i, at_) r -> declared_in d r i = at_.
-Proof.
-  induction r as [|[i' at'] r IH]; cbn; intros lo i at_ H Hin. contradiction.
-  apply andb_true_iff in H as [H1 H2].
+  induction l as [|[i b] r IH]; cbn; intros j at_ Hn Hin. contradiction.
+  inversion Hn as [|x xs Hni Hn']; subst.
   destruct Hin as [E|Hin].
   - inversion E; subst. now rewrite Nat.eqb_refl.
-  - destruct (Nat.eqb_spec i' i).
-    + subst i'. pose proof (increasing_lower _ _ H2 _ Hin) as G. cbn in G. lia.
-    + apply (IH (S i')); auto.
+  - destruct (Nat.eqb_spec i j).
+    + subst i. exfalso. apply Hni. apply in_map_iff. exists (j, at_). auto.
+    + apply IH; auto.
+Qed.
+
+(* ... and the default where j is not described *)
+Lemma declared_in_notin d : forall (l : list (nat * attrs)) j,
+  ~ In j (map fst l) -> declared_in d l j = d.
+Proof.
+  induction l as [|[i b] r IH]; cbn; intros j Hn. reflexivity.
+  destruct (Nat.eqb_spec i j). exfalso; auto. apply IH. auto.
+Qed.
+
+Lemma declared_in_perm d l l' j : Permutation l l' -> NoDup (map fst l) ->
+  declared_in d l j = declared_in d l' j.
+Proof.
+  intros P Hn.
+  assert (Hn' : NoDup (map fst l')) by (eapply Permutation_NoDup; [apply Permutation_map, P | exact Hn]).
+  destruct (in_dec Nat.eq_dec j (map fst l)) as [Hin|Hout].
+  - apply in_map_iff in Hin as [[i at_] [E Hin]]. cbn in E. subst i.
+    rewrite (declared_in_In d l j at_ Hn Hin).
+    symmetry. apply declared_in_In; auto. eapply Permutation_in; eauto.
+  - rewrite (declared_in_notin d l j Hout). symmetry. apply declared_in_notin.
+    intro H. apply Hout. eapply Permutation_in; [apply Permutation_map, Permutation_sym, P | exact H].
+Qed.
+
+Lemma nodup_nat_NoDup l : nodup_nat l = true <-> NoDup l.
+Proof.
+  induction l as [|x r IH]; cbn. split; auto. constructor.
+  rewrite andb_true_iff, IH, negb_true_iff. split.
+  - intros [H1 H2]. constructor; auto. intro Hin.
+    assert (existsb (Nat.eqb x) r = true) by (apply existsb_exists; exists x; split; auto; apply Nat.eqb_refl).
+    congruence.
+  - intros H. inversion H; subst. split; auto.
+    destruct (existsb (Nat.eqb x) r) eqn:E; auto. apply existsb_exists in E as [y [Hy E]].
+    apply Nat.eqb_eq in E. subst y. contradiction.
+Qed.
+
+(* the ordering step *)
+Lemma insert_ix_perm p l : Permutation (insert_ix p l) (p :: l).
+Proof.
+  induction l as [|q r IH]; cbn. reflexivity.
+  destruct (fst p <=? fst q)%nat. reflexivity.
+  eapply perm_trans; [apply perm_skip, IH | apply perm_swap].
+Qed.
+
+Lemma sort_ix_perm l : Permutation (sort_ix l) l.
+Proof.
+  induction l as [|p r IH]; cbn. constructor.
+  eapply perm_trans; [apply insert_ix_perm | apply perm_skip, IH].
+Qed.
+
+Lemma insert_ix_sorted p l :
+  StronglySorted lt (map fst l) -> ~ In (fst p) (map fst l) ->
+  StronglySorted lt (map fst (insert_ix p l)).
+Proof.
+  induction l as [|q r IH]; cbn; intros HS Hn.
+  - constructor; constructor.
+  - inversion HS as [|x xs HS' HF]; subst.
+    destruct (Nat.leb_spec (fst p) (fst q)) as [Hle|Hgt]; cbn.
+    + assert (fst p < fst q)%nat by (assert (fst q <> fst p) by tauto; lia).
+      constructor. exact HS. constructor. assumption.
+      eapply Forall_impl; [|exact HF]. cbn. intros. lia.
+    + constructor. apply IH; auto.
+      apply Forall_forall. intros k Hk.
+      assert (Hk' : In k (map fst (p :: r))).
+      { eapply Permutation_in; [apply Permutation_map, insert_ix_perm | exact Hk]. }
+      cbn in Hk'. destruct Hk' as [<-|Hk']. exact Hgt. rewrite Forall_forall in HF. auto.
+Qed.
+
+Lemma sort_ix_sorted l : NoDup (map fst l) -> StronglySorted lt (map fst (sort_ix l)).
+Proof.
+  induction l as [|p r IH]; cbn; intros Hn. constructor.
+  inversion Hn; subst. apply insert_ix_sorted. auto.
+  intro H. apply H1. eapply Permutation_in; [apply Permutation_map, sort_ix_perm | exact H].
+Qed.
+
+Lemma sorted_increasing : forall ks lo, StronglySorted lt ks -> (forall k, In k ks -> (lo <= k)%nat) ->
+  increasing_from lo ks = true.
+Proof.
+  induction ks as [|k r IH]; cbn; intros lo HS Hlo. reflexivity.
+  inversion HS; subst. apply andb_true_iff. split. apply Nat.leb_le. auto.
+  apply IH; auto. intros k' Hk'. rewrite Forall_forall in H2. specialize (H2 _ Hk'). lia.
 Qed.
 
 Lemma place_all_sorted d n : forall fl acc,
@@ -409,64 +462,87 @@ Proof.
     + intros j Hj. cbn. destruct (Nat.eqb_spec i j). lia. apply Hd. rewrite L1. lia.
 Qed.
 
-Lemma layout_sorted a : sorted_structure a = true ->
+Lemma wf_structure_spec a : wf_structure a = true ->
+  NoDup (map fst (flat (structure a))) /\
+  forall i, In i (map fst (flat (structure a))) -> (i < n_features a)%nat.
+Proof.
+  unfold wf_structure. intros H. apply andb_true_iff in H as [H1 H2]. split.
+  - now apply nodup_nat_NoDup.
+  - rewrite forallb_forall in H2. intros i Hi. apply Nat.ltb_lt. auto.
+Qed.
+
+(* every index described once and in range, IN ANY ORDER: column j carries the feature declared for j *)
+Lemma layout_wf a : wf_structure a = true ->
   layout a = Ok (map (declared a) (seq 0 (n_features a))).
 Proof.
-  unfold sorted_structure. intros H. apply andb_true_iff in H as [H1 H2].
-  assert (EA : match structure a with None => [] | Some st => fold_left (place_entry (dflt a)) st [] end
-               = place_all (dflt a) (flat (structure a)) []).
-  { destruct (structure a) as [st|]; cbn. apply layout_fold_flat. reflexivity. }
-  unfold layout. rewrite EA.
-  destruct (place_all_sorted (dflt a) (n_features a) (flat (structure a)) [] H1 H2 ltac:(cbn; lia))
-    as (k & E & B & Hd).
+  intros H. destruct (wf_structure_spec a H) as [Hn Hr].
+  unfold wf_structure in H. apply andb_true_iff in H as [H1 _].
+  unfold layout. rewrite H1.
+  set (fl := flat (structure a)) in *. set (sl := sort_ix fl).
+  assert (P : Permutation sl fl) by apply sort_ix_perm.
+  assert (Hinc : increasing_from 0 (map fst sl) = true).
+  { apply sorted_increasing. now apply sort_ix_sorted. intros; lia. }
+  assert (Hlt : forallb (fun i => (i <? n_features a)%nat) (map fst sl) = true).
+  { apply forallb_forall. intros i Hi. apply Nat.ltb_lt. apply Hr.
+    eapply Permutation_in; [apply Permutation_map, P | exact Hi]. }
+  destruct (place_all_sorted (dflt a) (n_features a) sl [] Hinc Hlt ltac:(cbn; lia)) as (k & E & B & Hd).
   cbn in E, B, Hd. rewrite E.
-  assert (EQ : map (declared_in (dflt a) (flat (structure a))) (seq 0 k) ++
-               repeat (dflt a) (n_features a - length (map (declared_in (dflt a) (flat (structure a))) (seq 0 k)))
+  assert (ED : forall j, declared_in (dflt a) sl j = declared a j).
+  { intros j. unfold declared. symmetry. apply declared_in_perm. now apply Permutation_sym. exact Hn. }
+  assert (EQ : map (declared_in (dflt a) sl) (seq 0 k) ++
+               repeat (dflt a) (n_features a - length (map (declared_in (dflt a) sl) (seq 0 k)))
                = map (declared a) (seq 0 (n_features a))).
   { rewrite map_length, seq_length.
     replace (n_features a) with (k + (n_features a - k))%nat at 2 by lia.
-    rewrite seq_app, map_app. f_equal. cbn.
-    rewrite <- (seq_length (n_features a - k) k) at 1. symmetry.
-    apply map_const_repeat. intros j Hj. apply in_seq in Hj. apply Hd. lia. }
+    rewrite seq_app, map_app. f_equal.
+    - apply map_ext. exact ED.
+    - cbn. rewrite <- (seq_length (n_features a - k) k) at 1. symmetry.
+      apply map_const_repeat. intros j Hj. apply in_seq in Hj. rewrite <- ED. apply Hd. lia. }
   rewrite EQ. rewrite map_length, seq_length, Nat.eqb_refl. reflexivity.
 Qed.
 
-Lemma layout_positions a i at_ : sorted_structure a = true -> In (i, at_) (flat (structure a)) ->
+Lemma layout_positions a i at_ : wf_structure a = true -> In (i, at_) (flat (structure a)) ->
   exists specs, layout a = Ok specs /\ (i < n_features a)%nat /\ nth i specs (dflt a) = at_.
 Proof.
-  intros H Hin. exists (map (declared a) (seq 0 (n_features a))). split. now apply layout_sorted.
-  unfold sorted_structure in H. apply andb_true_iff in H as [H1 H2].
+  intros H Hin. exists (map (declared a) (seq 0 (n_features a))). split. now apply layout_wf.
+  destruct (wf_structure_spec a H) as [Hn Hr].
   assert (Hi : (i < n_features a)%nat).
-  { rewrite forallb_forall in H2. apply Nat.ltb_lt. apply H2. apply in_map_iff. exists (i, at_). auto. }
+  { apply Hr. apply in_map_iff. exists (i, at_). auto. }
   split; [exact Hi|]. rewrite nth_map_seq by exact Hi. unfold declared.
-  eapply declared_in_at; eauto.
+  now apply declared_in_In.
 Qed.
 
-Lemma layout_default a j : sorted_structure a = true -> (j < n_features a)%nat ->
+Lemma layout_default a j : wf_structure a = true -> (j < n_features a)%nat ->
   ~ In j (map fst (flat (structure a))) ->
   exists specs, layout a = Ok specs /\ nth j specs (dflt a) = dflt a.
 Proof.
-  intros H Hj Hn. exists (map (declared a) (seq 0 (n_features a))). split. now apply layout_sorted.
-  rewrite nth_map_seq by exact Hj. unfold declared.
-  induction (flat (structure a)) as [|[i b] r IH]; cbn in *. reflexivity.
-  destruct (Nat.eqb_spec i j). exfalso; auto. apply IH. auto.
+  intros H Hj Hn. exists (map (declared a) (seq 0 (n_features a))). split. now apply layout_wf.
+  rewrite nth_map_seq by exact Hj. unfold declared. now apply declared_in_notin.
 Qed.
 
-(* unsorted structures: the code places a feature at the running counter, not at its index *)
+(* an index described twice: the code raises ValueError *)
+Lemma layout_rejects_duplicates a : ~ NoDup (map fst (flat (structure a))) -> layout a = Err 21.
+Proof.
+  intros H. unfold layout. destruct (nodup_nat (map fst (flat (structure a)))) eqn:E; [|reflexivity].
+  apply nodup_nat_NoDup in E. contradiction.
+Qed.
+
+(* before the ordering repair: the code placed a feature at the running counter, not at its index *)
 Definition unsorted_witness : args :=
   mkArgs 4 3 5 (Some [SOne 2 (ACard 2); SOne 0 (AVals [5; 6])]) false false 0 1000 3.
 
-Lemma positions_unsorted_refuted :
+Lemma positions_unsorted_prefix_refuted :
   exists a i at_ specs,
-    In (i, at_) (flat (structure a)) /\ NoDup (map fst (flat (structure a))) /\
-    Forall (fun k => (k < n_features a)%nat) (map fst (flat (structure a))) /\
-    layout a = Ok specs /\ nth i specs (dflt a) <> at_.
+    In (i, at_) (flat (structure a)) /\ wf_structure a = true /\
+    layout_old a = Ok specs /\ nth i specs (dflt a) <> at_.
 Proof.
   exists unsorted_witness, O, (AVals [5; 6]), [ACard 5; ACard 5; ACard 2; AVals [5; 6]].
-  split. cbn; auto. split. { repeat constructor; cbn; intuition discriminate. }
-  split. { cbn. repeat constructor. }
-  split. reflexivity. cbn. discriminate.
+  split. cbn; auto. split. reflexivity. split. reflexivity. cbn. discriminate.
 Qed.
+
+Example unsorted_witness_now :
+  layout unsorted_witness = Ok [AVals [5; 6]; ACard 5; ACard 2; ACard 5].
+Proof. reflexivity. Qed.
 
 (* ---------------------------------------------------------------- the validator *)
 
